@@ -38,6 +38,14 @@ void sp_objname() { string t; while (1) t = sprintf("%O", this_object()); }
 void rc_callother() { this_object()->rc_callother(); }
 void rc_catch() { catch(rc_catch()); }
 void rc_catch2() { catch(catch(rc_catch2())); }
+// loops and recursion whose body catches an ordinary error every turn: each caught error runs the master's error handler
+// inside the same evaluation, and nothing about that may add to the budget
+void sp_catchdiv() { int z, q; while (1) catch(q = 1 / z); }
+void sp_catcherr() { while (1) catch(error("spent\n")); }
+void sp_catchthrow() { while (1) catch(throw("spent")); }
+void sp_catchidx() { mixed *a; a = ({ }); while (1) catch(a[3]); }
+void sp_catchdest() { object o; while (1) { o = new("/vobj"); destruct(o); catch(o->foo()); catch(move_object(o)); } }
+void rc_catcherr() { catch(error("spent\n")); rc_catcherr(); }
 
 // builders: grow a value without bound; the driver must stop them with an error
 mixed bd(string kind) {
